@@ -107,6 +107,18 @@ CLAIMED = {
             'one unit per file, qualified imports); violations on other layouts exist on the unchanged tree and are '
             'listed in known_findings.jsonl by feature signature. "Compile and link" is approximated by Loki\'s own '
             'strict resolution, no compiler is run.'),
+    'C17': ('cloneworld', 'DESIGN.md sec. 5 (C17)',
+            'deterministic simulation (two-owner interleaving): seeded histories of edits addressed by the simulator to '
+            'the original or to its clone, with GC perturbation; isolation oracle against solo copies that received only '
+            'their own edits, plus scope-chain invariant for every symbol of the clone',
+            'Seeded exploration of interleaved edit histories (rename unit/member/variable, re-type, add/remove '
+            'variables, body append/prepend, Transformer and SubstituteExpressions in-place or not, rescope_symbols, '
+            'typedef and internal-procedure edits) on clones of a module (types, type-bound procedure, contained and '
+            'internal procedures, imports, associate), of one of its routines and of the source file. After every step '
+            'fgen(A) == fgen(solo A), fgen(B) == fgen(solo clone), every scoped symbol of B lives in B\'s scope chain '
+            '(never in A\'s, never dead). Sampling, not proof.',
+            'One fixed corpus unit (programs clause is not generated); operations address nodes by position; an '
+            'operation that raises on both the shared and the solo copy is inconclusive.'),
 }
 
 NA_COMMON = ('pure function of (source text / IR, options, valuations): no scheduler, clock, fault, shared state '
